@@ -1230,6 +1230,7 @@ func c03NumberText(p *Program, r *Report) {
 			continue
 		}
 		k := 0
+		nSign := 0
 		for _, b := range fn.Blocks {
 			for _, in := range b.Instrs {
 				c, _, els := builtinAppend(in)
@@ -1289,6 +1290,46 @@ func c03NumberText(p *Program, r *Report) {
 				}
 				if len(admitted) == 0 {
 					continue // copied under a predicate (digits, hex digits): classes, not markers
+				}
+				// a sign is part of a number literal only directly behind the exponent marker: the block that copies a '+' or '-'
+				// into the text is reached, in its turn of the loop, only through the block that put the exponent marker there.
+				// A sign accepted on a flag that is still set later in the literal swallows the operator of `1e5-3`
+				onlySigns := true
+				for ch := range admitted {
+					if ch != '+' && ch != '-' {
+						onlySigns = false
+					}
+				}
+				if onlySigns {
+					behindMarker := false
+					for _, b2 := range fn.Blocks {
+						for _, in2 := range b2.Instrs {
+							c2, _, els2 := builtinAppend(in2)
+							if c2 == nil || len(els2) != 1 || c2 == c {
+								continue
+							}
+							isMarker := false
+							if kc, ok := els2[0].(*ssa.Const); ok && kc.Value != nil && kc.Value.Kind() == constant.Int && (kc.Int64() == 'e' || kc.Int64() == 'E') {
+								isMarker = true
+							}
+							if isMarker && (b2 == b && instrIndex(c2) < instrIndex(c) || (b2 != b && b2.Dominates(b))) {
+								// and not through the head of the scanning loop again
+								inLoop := false
+								for _, l := range loopsOf(fn) {
+									if l.Body[b2] && l.Body[b] && l.Header != b && !(b2.Dominates(l.Header) && l.Header.Dominates(b) && l.Header != b2) {
+										inLoop = true
+									}
+								}
+								if inLoop || len(loopsOf(fn)) == 0 {
+									behindMarker = true
+								}
+							}
+						}
+					}
+					nSign++
+					r.Check(behindMarker, "C03.R5", fmt.Sprintf("%s|sign copied only behind the exponent marker #%d", funcName(fn), nSign), p.Pos(c.Pos()),
+						"the block that copies the sign is dominated by the block that wrote the exponent marker, in the same turn of the loop",
+						"a '+' or '-' is copied into a number literal's text at a place that is not reached through the exponent marker of the same turn: a sign that follows a complete literal (the operator of `1e5-3`) is swallowed into the number")
 				}
 				n++
 				k++
